@@ -176,7 +176,7 @@ class ModelFS:
         self._wtok = 0
         self.walk_fuel = walk_fuel
         self.ncalls = 0
-        self.fault_at = -1
+        self.fault_at = None
         self.fault_errno = errno.EIO
         self.fault_fired = None
         self.calls = []
@@ -278,7 +278,7 @@ class ModelFS:
         i = self.ncalls
         self.ncalls += 1
         self.calls.append((what, path))
-        if self.fault_at != -1 and sym.eq(i, self.fault_at):
+        if self.fault_at is not None and sym.eq(i, self.fault_at):
             self.fault_fired = (what, path)
             raise OSError(self.fault_errno, 'injected fault', path)
 
